@@ -12,7 +12,7 @@ INF_BWS = 0
 ARGK = {
     "new": "o", "add": "oattl", "add_annotator": "oa", "remove": "oattl", "copy": "oo", "copy_flush": "oo",
     "merge_in_place": "oo", "merge_new": "ooo", "plus": "ooo", "reset_bounds": "o", "drop": "o",
-    "compute": "", "fast_gamma": "oi", "derive": "o",
+    "compute": "", "fast_gamma": "oi", "derive": "o", "newaux": "i",
 }
 
 
@@ -90,7 +90,8 @@ class Encoder:
         for k, v in zip(ARGK[e["op"]], e["args"]):
             args.append({"o": int, "i": int, "a": self.a, "t": self.t, "l": self.l}[k](v))
         return {"op": e["op"], "args": args, "out": e["out"], "kind": e.get("kind", ""),
-                "obs": [[o, self.proj(p)] for o, p in e["obs"]], "eq": e["eq"]}
+                "obs": [[o, self.proj(p)] for o, p in e["obs"]], "eq": e["eq"],
+                "aux": e.get("aux", []), "auxval": e.get("auxval", [])}
 
     def file(self, traces, nobj):
         return {"zero": self.t(0.0), "nobj": nobj, "traces": [[self.event(e) for e in tr] for tr in traces]}
